@@ -207,10 +207,10 @@ NCASE = len(CASES)
 
 def end_to_end(ci: int, how: int) -> bool:
     """
-    pre: 0 <= ci < NCASE and 0 <= how <= 5
+    pre: 0 <= ci < NCASE and 0 <= how <= 6
     post: _
     """
-    ci, how = pick(ci, NCASE), pick(how, 6)
+    ci, how = pick(ci, NCASE), pick(how, 7)
     with Native():
         ok = run_e2e_case(ci, how)
     V.reached()
@@ -226,6 +226,8 @@ def run_e2e_case(ci, how):
         o = cls(**dict(reversed(list(kw.items()))))           # argument order
     elif how == 2:
         o = stix2.parse(dict(kw, type=name), version="2.1")   # via parse
+    elif how == 6:
+        o = cls(id=None, **kw)                                # None means "not given", as for every other property
     elif how == 4:
         o = cls(custom_properties=dict(kw))                   # every value handed over through custom_properties
     elif how == 5:
